@@ -48,13 +48,18 @@ def trace_part(rep, tier, rnd):
     if tier == "thorough":
         picks += names
     traces, meta, allstats = [], [], []
-    for name in picks:
-        n, d = rnd.choice([(5, 2), (6, 3)])
+    forced = [(nm, 5, 2) for nm in names if "/" not in nm or nm.split("/")[1] == "kl_ova"]     # last batch of 1 sample (n=5, bs=2)
+    forced += [(nm, 6, 4) for nm in ("RIM", "KernelRIM/linear", "LinearModel/mmd_ova", "MLPModel/mmd_ova")]   # last batch of 2 of 4
+    for item in [(nm, None, None) for nm in picks] + forced:
+        name, fn, fbs = item
+        n, d = rnd.choice([(5, 2), (6, 3)]) if fn is None else (fn, 2)
         X = np.array([[rnd.gauss(0, 1) for _ in range(d)] for _ in range(n)])
         X[: n // 2] += 1.5
         K = 2 if name.startswith("Douglas") or rnd.random() < 0.5 else 3
         bs = rnd.choice([1, 2, n - 1, n, None])
         decorated = rnd.random() < 0.3
+        if fn is not None:
+            bs, decorated = fbs, False
         common = dict(n_clusters=K, max_iter=rnd.choice([2, 3]), learning_rate=rnd.choice([0.05, 0.2]), solver=rnd.choice(["sgd", "adam"]),
                       batch_size=bs, random_state=rnd.randint(0, 9))
         stats = dict(coords=0, judged=0, kinks=0, nonfinite=0, bad=[])
